@@ -48,6 +48,7 @@ type Step struct {
 	Storefail int    `json:"storefail"` // k > 0: the first k save attempts fail (retried); k < 0: every attempt fails at statement -k
 	Fin       int    `json:"fin"`       // "finalize": new finalized L1 block
 	Pe        int    `json:"pe"`        // fep: the L2 block at which the prover's proof ends (0 = as requested)
+	Jump      int    `json:"jump"`      // "block": distance to the previous block with events (default 1)
 }
 
 type Behaviour struct {
@@ -502,7 +503,7 @@ func runOne(tw *tr.W, root string, idx int, b Behaviour, seed int64) error {
 	for _, s := range b.Steps {
 		switch s.A {
 		case "block":
-			leaves, claims, err := w.addL2Block(ctx, s.Nb, s.Nc)
+			leaves, claims, err := w.addL2Block(ctx, s.Nb, s.Nc, s.Jump)
 			if err != nil {
 				return err
 			}
@@ -520,15 +521,14 @@ func runOne(tw *tr.W, root string, idx int, b Behaviour, seed int64) error {
 				}
 			}
 			n.ag.mu.Unlock()
-			from := w.l2last
-			if s.Nb > 1 && from > 1 {
-				from--
+			from, dropped := w.l2last, 1 // (block numbers can be sparse: the reorg point is the number of a stored block)
+			if s.Nb > 1 && len(w.l2blocks) > 1 {
+				from, dropped = w.l2blocks[len(w.l2blocks)-2].num, 2
 			}
 			if from <= covered || from == 0 {
 				tw.Emit(tr.M{"ev": "skip", "why": "no uncovered L2 block to reorg"})
 				continue
 			}
-			dropped := int(w.l2last - from + 1)
 			if err := w.reorgL2(ctx, from); err != nil {
 				return err
 			}
